@@ -16,7 +16,7 @@ TIE = ('tie to the code = (i) Gen/*.lean re-extracted from the build of the curr
        'translator and drivers, g++/libstdc++ semantics of mirrored operations')
 
 prop('C01', 'proof',
-     'FULLY PROVED in Lean (Props/C01.lean): C01_movegen_exact : C01_Statement — for every Spec.wf position the generated list has no duplicate, every generated move decodes to a move that is legal under the rules, and every legal move is generated (C01_exact: code ∈ genMoves p ↔ ∃ m ∈ Spec.legalMoves (abs p), codeOf m = code; decode_codeOf; C01_no_duplicates). The proof goes by cases. NO EN-PASSANT SQUARE (C01_exact_noep): for every Spec.wf position with ep = none — in single or double check or not, with pinned pieces or not — code ∈ genMoves p ↔ ∃ m ∈ Spec.legalMoves (abs p), codeOf m = code: no illegal move, no legal move missing, all piece kinds, both directions (set-wise pawn groups vs the rules\' per-pawn list, knights via the C11 leaper sets, sliders via Spec.slide = bitboard ray walk, king, castling; pinned pieces move exactly along their pin line; in double check only the king moves; in single check the capture mask is the checker\'s square and the push mask LINES[k][c] minus its end points is the set of empty squares strictly between king and sliding checker, an unpinned piece arriving there leaves the king safe, any other ordinary move leaves the checker in place, a pinned piece has no legal move). WITH AN EN-PASSANT SQUARE: clearing it keeps the position well-formed and removes exactly the en-passant captures from the rules\' legal moves and from the generated list (reduction to the previous case), and an en-passant capture is generated iff it is legal (ep_exact): legality = own king not attacked with the capturer moved and the captured pawn removed; a slider sees the king over that occupancy in exactly four situations; "the double push was itself legal" (part of Spec.wf) excludes the line only the pushed pawn shields and the interposition on the en-passant square; attacked ⇔ another checker remains ∨ the capturer leaves its pin line ∨ capturer and captured pawn alone shielded the king on its rank; the generator\'s rank test = that rank exposure, its mask test = "the only checker is the pushed pawn", its pinned-pawn branch = capture along the pin diagonal out of check. THE PIN SCAN IS SOUND (C01_unpinned_legal). Also PROVED for every Spec.wf position (en-passant square or not): NO MOVE APPEARS TWICE (C01_no_duplicates: the generated list is duplicate-free — groups told apart by piece kind on the origin and pinned-ness, pawn groups by offset and promotion, en-passant by its empty target, pins on different rays name different squares via kernel-evaluated bit-scan tables) and every generated move is a castling code or the code of an own piece\'s move with promotion exactly on the end ranks (C01_move_shape); PROVED EXACT: the king moves (C01_king_moves_exact: the generator emits k->t iff that king step is legal '
+     'FULLY PROVED in Lean (Props/C01.lean): C01_movegen_exact : C01_Statement — for every Spec.wf position the generated list has no duplicate, every generated move decodes to a move that is legal under the rules, and every legal move is generated (C01_exact: code ∈ genMoves p ↔ ∃ m ∈ Spec.legalMoves (abs p), codeOf m = code; decode_codeOf; C01_no_duplicates). PERFT AGREES WITH THE RULES AT EVERY DEPTH (C01_perft: the model\'s perft over generated moves and do_move = the number of lines of legal moves, on every Spec.wf position; uses that the rules list no legal move twice, Lemmas/SpecNodup.lean, C02 for each step and the invariance of well-formedness). The proof of exactness goes by cases. NO EN-PASSANT SQUARE (C01_exact_noep): for every Spec.wf position with ep = none — in single or double check or not, with pinned pieces or not — code ∈ genMoves p ↔ ∃ m ∈ Spec.legalMoves (abs p), codeOf m = code: no illegal move, no legal move missing, all piece kinds, both directions (set-wise pawn groups vs the rules\' per-pawn list, knights via the C11 leaper sets, sliders via Spec.slide = bitboard ray walk, king, castling; pinned pieces move exactly along their pin line; in double check only the king moves; in single check the capture mask is the checker\'s square and the push mask LINES[k][c] minus its end points is the set of empty squares strictly between king and sliding checker, an unpinned piece arriving there leaves the king safe, any other ordinary move leaves the checker in place, a pinned piece has no legal move). WITH AN EN-PASSANT SQUARE: clearing it keeps the position well-formed and removes exactly the en-passant captures from the rules\' legal moves and from the generated list (reduction to the previous case), and an en-passant capture is generated iff it is legal (ep_exact): legality = own king not attacked with the capturer moved and the captured pawn removed; a slider sees the king over that occupancy in exactly four situations; "the double push was itself legal" (part of Spec.wf) excludes the line only the pushed pawn shields and the interposition on the en-passant square; attacked ⇔ another checker remains ∨ the capturer leaves its pin line ∨ capturer and captured pawn alone shielded the king on its rank; the generator\'s rank test = that rank exposure, its mask test = "the only checker is the pushed pawn", its pinned-pawn branch = capture along the pin diagonal out of check. THE PIN SCAN IS SOUND (C01_unpinned_legal). Also PROVED for every Spec.wf position (en-passant square or not): NO MOVE APPEARS TWICE (C01_no_duplicates: the generated list is duplicate-free — groups told apart by piece kind on the origin and pinned-ness, pawn groups by offset and promotion, en-passant by its empty target, pins on different rays name different squares via kernel-evaluated bit-scan tables) and every generated move is a castling code or the code of an own piece\'s move with promotion exactly on the end ranks (C01_move_shape); PROVED EXACT: the king moves (C01_king_moves_exact: the generator emits k->t iff that king step is legal '
      'under the rules; forbidden squares = attacked with the king x-rayed, C01_forbidden_squares), the in-check test (C01_in_check_test), and CASTLING (C01_castling_exact: each of the four castling tests '
      'holds iff the rules list that castling move, every listed castling move survives the legality filter, and the code is emitted, C01_castling_emitted; rests on "lifting an unattacked king uncovers nothing", '
      'Lemmas/KingLift.lean, and a changed-squares lemma for Spec.attacked, Lemmas/CastleSafe.lean). Nothing of the statement is left to testing; the model is tied to the code by the three-way differential '
@@ -56,11 +56,14 @@ prop('C15', 'proof',
      'move against the rules-spec (which plays the move) ties the model to the code',
      WF + TIE, 'Lean 4 theorems (capture, quiet, gives-check: all legal moves) + differential correspondence', '§12.4 C15')
 prop('C16', 'proof',
-     'Lean theorems: packed Move / MoveInfo encodings decode to their fields (exhaustive decide over all field values), uci/parse_uci round trip; '
+     'FEN ROUND TRIP PROVED (Props/C16Full.lean, C16_fen_roundtrip): on every Spec.wf position whose ply counter is in step with the side to move, loading the printed FEN gives the same placement, side, rights, en-passant square, clocks, the key HashKey::init computes from them (= the position\'s own key on every position reached through FEN loads and moves, C16_fen_roundtrip_key with C04) and prints the identical FEN '
+     '(Lemmas/FenRound.lean: the printer\'s rank loop of digit runs and piece letters against the reader\'s cursor, the eight ranks, token splitting, kernel tables for the rights and en-passant texts, Nat.toNat?_repr for the clocks). '
+     'UCI ROUND TRIP ON EVERY LEGAL MOVE (C16_uci_roundtrip_wf, C16_uci_legal_rules): parse_uci(uci(m)) = m for every generated move of every Spec.wf position = the code of every move legal under the rules (C01), castling included. '
+     'Packed Move / MoveInfo encodings decode to their fields (exhaustive decide over all field values); '
      'differential on uci text, codes, parse round trips and FEN->Position->FEN/keys on every visited position',
-     'FEN full-move number >= 1; ' + TIE, 'Lean 4 theorems (finite decide + lemmas) + differential correspondence', '§6 C16')
+     'FEN full-move number >= 1; ' + TIE, 'Lean 4 theorems (FEN and UCI round trips over all well-formed positions, encodings by finite decide) + differential correspondence', '§12.4 C16')
 prop('C17', 'proof',
-     'ROUND TRIP PROVED in Lean, UNCONDITIONALLY on well-formed positions (Props/C17.lean, C17_roundtrip_wf): for every Spec.wf position and EVERY generated move (the shape of the generated list the argument needs — no duplicates, castling moves are the two castling codes, '
+     'ROUND TRIP AND UNAMBIGUITY PROVED in Lean over the rules\' own quantifier (C17_legal_rules: for every move legal under the rules in a Spec.wf position the SAN text of its code parses back to that code and no other legal move has the same text; C17_unambiguous), from the round trip UNCONDITIONALLY on well-formed positions (Props/C17.lean, C17_roundtrip_wf): for every Spec.wf position and EVERY generated move (the shape of the generated list the argument needs — no duplicates, castling moves are the two castling codes, '
      'other moves move an existing piece and promote to N/B/R/Q exactly when a pawn reaches an end rank — is itself a theorem, genShapeB_of_wf / C01_move_shape, and is still evaluated at every position of every run through the sync field), '
      'parse_san(san(m)) = m: the text of san as a character list, the one SAN regex on every text shape san can print (exhaustive kernel evaluation, Lemmas/SanShapes*.lean, incl. pawn texts with a rank), '
      'and the disambiguation argument (the printed file / file+rank leaves exactly one candidate whatever other moves share piece kind and target); castling texts with + and #. '
@@ -131,7 +134,7 @@ prop('C12', 'proof',
      'Lean 4 kernel-checked certificate (96 x 4096 positions) + exhaustive enumeration against an independent solver', '§12.4 C12')
 
 prop('C13', 'proof',
-     'the evaluator (score.cpp + endgame.cpp, ~600 lines) transcribed into Lean with its explicit per-colour choices; mirror-law theorems in Props/C13.lean (see DESIGN §6 C13 for the part proved); '
+     'the evaluator (score.cpp + endgame.cpp, ~600 lines) transcribed into Lean with its explicit per-colour choices; mirror-law theorems in Props/C13.lean and Props/C13Mirror.lean (the mirrored board is a permutation of the recoloured board, so piece counts, the material signature, the enough-material guard and the game-phase weight are mirror-invariant on every Spec.wf position: C13_guard_phase_wf; see DESIGN §12.4 C13 for the part proved); '
      'correspondence: model vs C++ on every evaluation of corpus/lab/game positions and random placements of every specialised endgame class, and the symmetry property evaluated directly on the C++ '
      'for every position and its mirror', 'Spec.wf positions with sufficient material; evaluation constants of value.h and the endgame.cpp tables are regenerated from the build on every run (Gen/EvalConsts.lean); ' + TIE,
      'Lean 4 theorems over a transcribed evaluator + direct mirror test on the implementation', '§6 C13')
